@@ -2,6 +2,7 @@ import GrmVerif.Lemmas.Total
 import GrmVerif.Lemmas.TableViews
 import GrmVerif.Lemmas.Closure
 import GrmVerif.Lemmas.CertProps
+import GrmVerif.Lemmas.CloseImpl2
 import GrmVerif.Props.C03
 import GrmVerif.Props.C17
 /-!
@@ -9,7 +10,8 @@ import GrmVerif.Props.C17
 
 Model: `Model/Table.lean` (`cellOf`, `stateShifts`, `ntDepth`/`coreReduces`, `reduceOnly` as
 `StateTable::new` computes them), `Model/Closure.lean` (reference LR(1) closure and state
-reachability), `Model/Cert.lean` (edge/goto/shift agreement clauses of the validator).
+reachability), `Model/CloseImpl.lean` (the Rust algorithm `Itemset::close` itself: work list, FIRST-based
+lookaheads with the nullable `break`, `add`'s changed flag; hash-map order a parameter), `Model/Cert.lean` (edge/goto/shift agreement clauses of the validator).
 The bit-level `decode (encode a) = a` is `C20.action_roundtrip`.
 -/
 namespace GrmVerif.C16
@@ -230,5 +232,139 @@ theorem closure_total (G : Grammar) (N : Nat → Bool) (F : Nat × Nat → Bool)
 
 theorem reachable_total (A : Automaton) : ∃ R, Closure.reachableStates A = some R :=
   Total.reachableStates_total A
+
+/-! ### the algorithm `Itemset::close` itself (`Model/CloseImpl.lean`) -/
+
+open GrmVerif.CloseImpl in
+/-- **`Itemset::close` computes exactly the LR(1) closure of its kernel.** For every well-formed
+grammar, exact nullable/FIRST oracles (the hypotheses of `close1_exact`), kernel `core` = the content
+of a hash map (`CoreOk`, distinct keys) and EVERY order `order` in which `self.items.keys()` may yield
+the kernel's keys: with `closeFuel G order` (= |order| + |fact universe| + 1) or more units of fuel the
+model of the work-list loop ends normally (no panic, no fuel exhaustion) with a map `R` of distinct
+keys that denotes exactly the facts of `ClosureP G core` — the same items and, for every item, the
+same lookahead set. -/
+theorem close_impl_exact (G : Grammar) (hwf : G.wf = true) (N : Nat → Bool) (F : Nat × Nat → Bool)
+    (hN : ∀ r, N r = true ↔ Spec.NullableR G r) (hF : ∀ r t, F (r, t) = true ↔ Spec.FirstP G r t)
+    (core : List Item) (hcore : CoreOk G core) (hnd : KeysNodup core)
+    (order : List (Nat × Nat)) (horder : ∀ p d, (p, d) ∈ order ↔ CloseImpl.HasItem core p d)
+    (fuel : Nat) (hfuel : closeFuel G order ≤ fuel) :
+    ∃ R, CloseImpl.close G N F core order fuel = .done R ∧ KeysNodup R ∧
+      (∀ p d, CloseImpl.HasItem R p d ↔ ClosureP G core (.item p d)) ∧
+      (∀ p d t, HasLa R p d t ↔ ClosureP G core (.la p d t)) := by
+  have hinv : Inv G N F core order [] core := by
+    refine ⟨⟨hnd, ?_, ?_⟩, ?_, ?_, ?_, ?_, ?_⟩
+    · rintro p d ⟨i, hi, rfl, rfl⟩; exact .kitem i hi
+    · rintro p d t ⟨i, hi, rfl, rfl, ht⟩; exact .kla i t hi ht
+    · intro i hi; exact ⟨i, hi, rfl, rfl⟩
+    · intro i hi t ht; exact ⟨i, hi, rfl, rfl, ht⟩
+    · intro k hk; exact (horder k.1 k.2).mp hk
+    · intro q hq; cases hq
+    · intro p d h; exact Or.inl ((horder p d).mpr h)
+  have hm := missingOf_le_universe G core
+  obtain ⟨R, hR, hfin⟩ := loop_spec hwf hN hF hcore fuel order [] core hinv
+    (by simp only [closeFuel] at hfuel; simp only [List.length_nil]; omega)
+  obtain ⟨h1, h2⟩ := inv_final_exact hwf hN hF hcore hfin
+  exact ⟨R, hR, hfin.sound.nodup, h1, h2⟩
+
+open GrmVerif.CloseImpl in
+/-- **the model of `Itemset::close` equals the reference closure `close1` as a set of facts** (the
+reference is what the check compares every dumped closed state with) -/
+theorem close_impl_eq_reference (G : Grammar) (hwf : G.wf = true) (N : Nat → Bool) (F : Nat × Nat → Bool)
+    (hN : ∀ r, N r = true ↔ Spec.NullableR G r) (hF : ∀ r t, F (r, t) = true ↔ Spec.FirstP G r t)
+    (core : List Item) (hcore : CoreOk G core) (hnd : KeysNodup core)
+    (order : List (Nat × Nat)) (horder : ∀ p d, (p, d) ∈ order ↔ CloseImpl.HasItem core p d)
+    (fuel : Nat) (hfuel : closeFuel G order ≤ fuel) :
+    ∃ R S, CloseImpl.close G N F core order fuel = .done R ∧ close1 G N F core = some S ∧
+      ∀ x, x ∈ S ↔ x ∈ factsOf R := by
+  obtain ⟨R, hR, _, h1, h2⟩ := close_impl_exact G hwf N F hN hF core hcore hnd order horder fuel hfuel
+  obtain ⟨S, hS⟩ := Total.close1_total G N F core
+  refine ⟨R, S, hR, hS, ?_⟩
+  intro x
+  rw [close1_exact G hwf N F hN hF core hcore S hS x]
+  cases x with
+  | item p d => rw [mem_factsOf_item]; exact (h1 p d).symm
+  | la p d t => rw [mem_factsOf_la]; exact (h2 p d t).symm
+
+open GrmVerif.CloseImpl in
+/-- **the hash map's iteration order is irrelevant**: whatever two orders `self.items.keys()` yields the
+kernel's keys in, both runs end normally and their maps hold the same items with the same lookahead
+sets -/
+theorem close_impl_order_irrelevant (G : Grammar) (hwf : G.wf = true) (N : Nat → Bool) (F : Nat × Nat → Bool)
+    (hN : ∀ r, N r = true ↔ Spec.NullableR G r) (hF : ∀ r t, F (r, t) = true ↔ Spec.FirstP G r t)
+    (core : List Item) (hcore : CoreOk G core) (hnd : KeysNodup core)
+    (o1 o2 : List (Nat × Nat)) (h1 : ∀ p d, (p, d) ∈ o1 ↔ CloseImpl.HasItem core p d)
+    (h2 : ∀ p d, (p, d) ∈ o2 ↔ CloseImpl.HasItem core p d) :
+    ∃ R1 R2, CloseImpl.close G N F core o1 (closeFuel G o1) = .done R1 ∧
+      CloseImpl.close G N F core o2 (closeFuel G o2) = .done R2 ∧
+      (∀ p d, CloseImpl.HasItem R1 p d ↔ CloseImpl.HasItem R2 p d) ∧ (∀ p d t, HasLa R1 p d t ↔ HasLa R2 p d t) ∧
+      sameItems R1 R2 = true := by
+  obtain ⟨R1, hR1, n1, a1, b1⟩ := close_impl_exact G hwf N F hN hF core hcore hnd o1 h1 _ (Nat.le_refl _)
+  obtain ⟨R2, hR2, n2, a2, b2⟩ := close_impl_exact G hwf N F hN hF core hcore hnd o2 h2 _ (Nat.le_refl _)
+  have ha : ∀ p d, CloseImpl.HasItem R1 p d ↔ CloseImpl.HasItem R2 p d := fun p d => (a1 p d).trans (a2 p d).symm
+  have hb : ∀ p d t, HasLa R1 p d t ↔ HasLa R2 p d t := fun p d t => (b1 p d t).trans (b2 p d t).symm
+  exact ⟨R1, R2, hR1, hR2, ha, hb, (sameItems_iff n1 n2).mpr ⟨fun p d => (ha p d).symm, fun p d t => (hb p d t).symm⟩⟩
+
+open GrmVerif.CloseImpl in
+/-- **the driver's model comparison decides the property**: for a dumped closed state `closed` (the
+content of a hash map: distinct keys), `sameItems (model's map) closed` holds iff `closed` denotes
+exactly the LR(1) closure of `core` -/
+theorem close_impl_check_sound (G : Grammar) (hwf : G.wf = true) (N : Nat → Bool) (F : Nat × Nat → Bool)
+    (hN : ∀ r, N r = true ↔ Spec.NullableR G r) (hF : ∀ r t, F (r, t) = true ↔ Spec.FirstP G r t)
+    (core : List Item) (hcore : CoreOk G core) (hnd : KeysNodup core)
+    (order : List (Nat × Nat)) (horder : ∀ p d, (p, d) ∈ order ↔ CloseImpl.HasItem core p d)
+    (closed : List Item) (hcl : KeysNodup closed) :
+    ∃ R, CloseImpl.close G N F core order (closeFuel G order) = .done R ∧
+      (sameItems R closed = true ↔
+        (∀ p d, CloseImpl.HasItem closed p d ↔ ClosureP G core (.item p d)) ∧
+        (∀ p d t, HasLa closed p d t ↔ ClosureP G core (.la p d t))) := by
+  obtain ⟨R, hR, n, a, b⟩ := close_impl_exact G hwf N F hN hF core hcore hnd order horder _ (Nat.le_refl _)
+  refine ⟨R, hR, ?_⟩
+  rw [sameItems_iff n hcl]
+  constructor
+  · rintro ⟨x, y⟩; exact ⟨fun p d => (x p d).trans (a p d), fun p d t => (y p d t).trans (b p d t)⟩
+  · rintro ⟨x, y⟩; exact ⟨fun p d => (x p d).trans (a p d).symm, fun p d t => (y p d t).trans (b p d t).symm⟩
+
+/-! tests (not theorems): the hypotheses are satisfiable and the model computes the textbook closures -/
+
+/-- `S' → S; S → L = R | R; L → * R | id; R → L` (tokens `= * id $`) -/
+def exDragon : Grammar :=
+  { ntoks := 4, nrules := 4, eof := 3, startProd := 0,
+    prods := [(0, [.rule 1]), (1, [.rule 2, .tok 0, .rule 3]), (1, [.rule 3]), (2, [.tok 1, .rule 3]),
+      (2, [.tok 2]), (3, [.rule 2])] }
+
+/-- `S' → A; A → B C d | B C; B → ε | b; C → ε | c` (tokens `b c d $`): nullable tails -/
+def exNullTail : Grammar :=
+  { ntoks := 4, nrules := 4, eof := 3, startProd := 0,
+    prods := [(0, [.rule 1]), (1, [.rule 2, .rule 3, .tok 2]), (1, [.rule 2, .rule 3]), (2, []), (2, [.tok 0]),
+      (3, []), (3, [.tok 1])] }
+
+/-- run the model with the verified reference analyses and compare with an expected map -/
+def modelGives (G : Grammar) (core : List Item) (order : List (Nat × Nat)) (expected : List Item) : Bool :=
+  match Ref.analyses G with
+  | none => false
+  | some An =>
+    match CloseImpl.close G (An.nullable.contains ·) (An.first.contains ·) core order (CloseImpl.closeFuel G order) with
+    | .done R => CloseImpl.sameItems R expected
+    | _ => false
+
+example : exDragon.wf = true := by decide
+example : CoreOk exDragon [⟨0, 0, [3]⟩] := by
+  intro i hi; simp only [List.mem_singleton] at hi; subst hi; decide
+example : CloseImpl.KeysNodup [⟨1, 1, [3]⟩, ⟨5, 1, [0, 3]⟩] := by
+  unfold CloseImpl.KeysNodup CloseImpl.keysOf; decide
+example : modelGives exDragon [⟨0, 0, [3]⟩] [(0, 0)]
+    [⟨0, 0, [3]⟩, ⟨1, 0, [3]⟩, ⟨2, 0, [3]⟩, ⟨3, 0, [0, 3]⟩, ⟨4, 0, [3, 0]⟩, ⟨5, 0, [3]⟩] = true := by decide
+example : modelGives exDragon [⟨1, 2, [3]⟩] [(1, 2)]
+    [⟨1, 2, [3]⟩, ⟨5, 0, [3]⟩, ⟨3, 0, [3]⟩, ⟨4, 0, [3]⟩] = true := by decide
+-- both orders of a two-item kernel
+example : modelGives exNullTail [⟨1, 1, [3]⟩, ⟨2, 1, [3]⟩] [(1, 1), (2, 1)]
+    [⟨1, 1, [3]⟩, ⟨2, 1, [3]⟩, ⟨5, 0, [2, 3]⟩, ⟨6, 0, [2, 3]⟩] = true := by decide
+example : modelGives exNullTail [⟨1, 1, [3]⟩, ⟨2, 1, [3]⟩] [(2, 1), (1, 1)]
+    [⟨1, 1, [3]⟩, ⟨2, 1, [3]⟩, ⟨5, 0, [2, 3]⟩, ⟨6, 0, [2, 3]⟩] = true := by decide
+example : modelGives exNullTail [⟨0, 0, [3]⟩] [(0, 0)]
+    [⟨0, 0, [3]⟩, ⟨1, 0, [3]⟩, ⟨2, 0, [3]⟩, ⟨3, 0, [1, 2, 3]⟩, ⟨4, 0, [1, 2, 3]⟩] = true := by decide
+-- a wrong expectation is rejected (lookahead `$` of `B → ·` missing)
+example : modelGives exNullTail [⟨0, 0, [3]⟩] [(0, 0)]
+    [⟨0, 0, [3]⟩, ⟨1, 0, [3]⟩, ⟨2, 0, [3]⟩, ⟨3, 0, [1, 2]⟩, ⟨4, 0, [1, 2, 3]⟩] = false := by decide
 
 end GrmVerif.C16
